@@ -213,7 +213,7 @@ class Representation(ObjectWithFields):
                         print('Average sample duration %d' % default_sample_duration)
                     if rv.content_type == "video" and default_sample_duration:
                         rv.add_field('frameRate', float(rv.timescale) / float(default_sample_duration))
-            elif atom.atom_type in ['sidx', 'moov', 'mdat', 'free'] and rv.segments:
+            elif atom.atom_type in ['sidx', 'styp', 'moov', 'mdat', 'free'] and rv.segments:
                 if verbose > 1:
                     print('Extend fragment %d with %s' % (len(rv.segments), atom.atom_type))
                 seg = rv.segments[-1]
